@@ -420,11 +420,11 @@ pub fn run_check(ctx: &mut Ctx) {
         ctx.health(false, "mos binary not built (MOS_BIN)");
         return;
     }
-    let n = ctx.tier.pick(4800, 120_000);
+    let n = ctx.tier.pick(8000, 160_000);
     ctx.campaign_parallel("rename", n, 16, strategy, prop, to_json);
     // two-file projects: the symbol is defined in an imported file and used in both (enumerable: 3*3*3*4*4*2 shapes x
     // occurrences; sampled)
-    let n = ctx.tier.pick(600, 6_000);
+    let n = ctx.tier.pick(1000, 10_000);
     ctx.campaign_parallel("rename-across-files", n, 16, multi_strategy, prop_multi, multi_to_json);
     let k = ctx.label_count("same-range-in-both-files");
     ctx.health(k > 0, "no case with an occurrence at the same range in both files");
